@@ -180,7 +180,8 @@ impl FixedMethod {
         }
 
         // Sort the suggestions.
-        self.suggestions.sort_unstable();
+        // The sort needs to be stable as the emojis of a name are ranked equally to keep their order.
+        self.suggestions.sort();
 
         // Reduce the number of suggestions and add the typed english word at the end.
         // Also check that the typed text is not already included (may happen
